@@ -132,7 +132,8 @@ def negArg (neg : Str) (ws1 : List Str) : Res (Str × List Str) :=
 
 def mkPair (key neg2 : Str) (args : List Str) : Str × Str :=
   let v := neg2 ++ join args
-  if key = lit "--tcp-flags" ∧ v = lit "!FIN,SYN,RST,ACK SYN" then (lit "--syn", lit "!") else (key, v)
+  -- `[!] --tcp-flags FIN,SYN,RST,ACK SYN ==> [!] --syn` (upstream 1350e50: negated or not)
+  if key = lit "--tcp-flags" ∧ join args = lit "FIN,SYN,RST,ACK SYN" then (lit "--syn", neg2) else (key, v)
 
 /-- the `for len(words) > 0` loop over the options of one rule. -/
 def parsePairs (line : Str) : Nat → List Str → Res (List (Str × Str))
